@@ -8,7 +8,7 @@ from ..world import Session, alias_partition, is_contextual, diff, pview
 
 ID = "C19"
 LEVEL = "exploration"
-QUICK_RUNS = 640
+QUICK_RUNS = 1920
 RULE = ("Each run: drawn policy combination (binarizers are module-level functions), a history with restart points "
         "placed before fit, after training, after arm changes, after warm start and between queries and partial_fit; "
         "at each restart point the bandit is deep-copied / pickled (protocols 2-5) / pickled and restored in ANOTHER "
